@@ -1490,5 +1490,8 @@ def run(ctx):
     scaled_norms(ctx)
     output_fully_defined(ctx)
     series_branch(ctx)
+    # each apply method acts on exactly the entries of its argument: the stride handed to the pointer kernels is the storage stride
+    from . import c13
+    c13.stride_arguments(ctx, 'apply-methods-walk-the-argument-storage')
     from . import stale
     stale.loop_buffers(ctx, scope=lambda fn: fn.cls in ('Spectra::UpperHessenbergQR', 'Spectra::TridiagQR', 'Spectra::DoubleShiftQR'), min_instances=4)
